@@ -2298,6 +2298,27 @@ def install_default_intrinsics(ex):
     I['os.Getenv'] = nondet_opaque('os.Getenv')
     I['os.Hostname'] = nondet_opaque('os.Hostname')
 
+    # a ROM file: vTempRom(img) registers the bytes under a path, ioutil.ReadFile / os.ReadFile of that path return them
+    def vtemprom(ex, st, args, pos):
+        if not hasattr(ex, 'files'):
+            ex.files = {}
+        name = 'verif-rom-%d' % len(ex.files)
+        ex.files[name] = args[0]
+        return name, st
+    I['v:vTempRom'] = vtemprom
+
+    def readfile(ex, st, args, pos):
+        files = getattr(ex, 'files', {})
+        if args[0] not in files:
+            raise Unsupported('ReadFile of a path not registered with vTempRom')
+        src = files[args[0]]
+        # a private copy, as a real read would give
+        arr = ex.slice_array(st, src)
+        oid = ex.new_obj(st, arr, ex.objtype.get(src.ptr.obj))
+        return (SliceV(Ptr(oid, ()), src.off, src.len, src.cap), None), st
+    I['io/ioutil.ReadFile'] = readfile
+    I['os.ReadFile'] = readfile
+
     def vmark(ex, st, args, pos):
         ex.mark = const_name(args[0])
         return None, st
